@@ -1,7 +1,7 @@
 #!/bin/bash
 # usage: seed_confirm.sh C07 a   -> confirms a seeded change in the scratch worktree /tmp/wt/C07 (at /repo's HEAD)
 # prints: <id>/<x> apply=ok demo_with=1 tests=7failed,515passed demo_without=0
-id=$1; x=$2; wt=/tmp/wt/$id; seed=/tmp/seeds/$id/$x
+id=$1; x=$2; wt=/tmp/wt/$id; seed=${SEEDROOT:-/tmp/seeds}/$id/$x
 export NUMBA_CACHE_DIR=/tmp/numba_cache_${id}_${x}
 mkdir -p $NUMBA_CACHE_DIR
 cd $wt || exit 2
@@ -11,8 +11,13 @@ if git apply --check $seed/patch.diff 2>/dev/null; then git apply $seed/patch.di
 elif patch -p1 --dry-run -s -i $seed/patch.diff >/dev/null 2>&1; then patch -p1 -s -i $seed/patch.diff; ap=fuzzy
 else echo "$id/$x apply=FAILED"; exit 0; fi
 /venv/bin/python $seed/demo.py > $seed/confirm_demo_with.txt 2>&1; dw=$?
-t=$(timeout 1500 /venv/bin/python -m pytest -q -p no:cacheprovider --timeout=900 dataiter/test 2>&1 | tail -1)
-fails=$(timeout 1500 /venv/bin/python -m pytest -q -p no:cacheprovider --timeout=900 dataiter/test 2>&1 | grep -E "^FAILED" | sort | md5sum | cut -c1-8)
+# the suite gets a FRESH Numba cache of its own: kernels cached by the demo (or by an earlier run) change
+# which tests pass -- the compilation-history effect property C08 is about
+rm -rf $NUMBA_CACHE_DIR; mkdir -p $NUMBA_CACHE_DIR
+timeout 1500 /venv/bin/python -m pytest -q -p no:cacheprovider --timeout=900 dataiter/test > /tmp/confirm_${id}_${x}.log 2>&1
+t=$(tail -1 /tmp/confirm_${id}_${x}.log)
+fails=$(grep -E "^FAILED" /tmp/confirm_${id}_${x}.log | sort | md5sum | cut -c1-8)
+rm -f /tmp/confirm_${id}_${x}.log; rm -rf $NUMBA_CACHE_DIR; mkdir -p $NUMBA_CACHE_DIR
 git checkout -q -- . ; find . -name "*.orig" -delete; find . -name "*.rej" -delete
 /venv/bin/python $seed/demo.py > $seed/confirm_demo_without.txt 2>&1; dwo=$?
 rm -rf $NUMBA_CACHE_DIR
